@@ -4,19 +4,20 @@
 # a scratch worktree of /repo's HEAD with the seeded change applied
 # (VERIF_REPO, see ./check), so /repo itself is never touched and other runs
 # are not disturbed. Equivalent to `git -C /repo apply <patch>; ./check ...;
-# git -C /repo checkout -- .`. Evidence written meanwhile is restored.
+# git -C /repo checkout -- .`. Evidence and replays of such runs go to the
+# scratch .bin-alt-* directory (VERIF_OUT), never to /verif/evidence.
 set -u
 ID="$1"; PATCH="$(readlink -f "$2")"; shift 2
 CHECKS=("$@"); [ ${#CHECKS[@]} -eq 0 ] && CHECKS=("$ID")
 W=$(mktemp -d /tmp/seedtest-wt.XXXXXX); rmdir "$W"
 git -C /repo worktree add -q --detach "$W" HEAD || exit 2
-EVBAK=$(mktemp -d /tmp/seedtest-ev.XXXXXX); cp -a /verif/evidence/. "$EVBAK"/
-RPBEFORE=$(mktemp /tmp/seedtest-rp.XXXXXX); ls /verif/replays > "$RPBEFORE" 2>/dev/null
-trap 'git -C /repo worktree remove --force "$W" >/dev/null 2>&1; cp -a "$EVBAK"/. /verif/evidence/; rm -rf "$EVBAK"; for f in $(ls /verif/replays 2>/dev/null | grep -vxFf "$RPBEFORE"); do rm -f "/verif/replays/$f"; done; rm -f "$RPBEFORE"; rm -rf /verif/.bin-alt-$(echo "$W" | md5sum | cut -c1-8)' EXIT
+ALT=/verif/.bin-alt-$(echo "$W" | md5sum | cut -c1-8)
+trap 'git -C /repo worktree remove --force "$W" >/dev/null 2>&1; [ -n "${SEEDTEST_KEEP:-}" ] && cp -a "$ALT/out" "$SEEDTEST_KEEP" 2>/dev/null; rm -rf "$ALT"' EXIT
 if ! git -C "$W" apply "$PATCH"; then echo "patch does not apply to /repo HEAD"; exit 2; fi
 for c in "${CHECKS[@]}"; do
   out=$(cd /verif && VERIF_REPO="$W" VERIF_SEED=${VERIF_SEED:-1} timeout 1800 ./check "$c" quick 2>&1); rc=$?
   nv=$(echo "$out" | grep -c '^VIOLATION')
   sigs=$(echo "$out" | grep 'signature=' | sed 's/.*signature=//' | sort | uniq -c | sort -rn | head -5 | tr '\n' ';')
   echo "seed=$ID check=$c exit=$rc violations=$nv sigs: $sigs"
+  [ -n "${SEEDTEST_VERBOSE:-}" ] && echo "$out" | tail -${SEEDTEST_VERBOSE}
 done
